@@ -87,7 +87,7 @@ def confirm(raw_dir, tag, prop, letter):
 def main():
     want = set(sys.argv[1:])
     items = []
-    for raw in ('seeded_raw', 'seeded_raw2', 'seeded_raw3', 'seeded_raw4', 'seeded_raw5', 'seeded_raw6', 'seeded_raw7'):
+    for raw in ['seeded_raw'] + ['seeded_raw%d' % i for i in range(2, 20)]:
         d = os.path.join(ROOT, raw)
         if not os.path.isdir(d):
             continue
